@@ -558,6 +558,8 @@ def fused_map(ctx):
                             continue    # an error propagated from a callee (range check, pool full): not a selection outcome
                         else:
                             res.add(('<fallback>',))
+                    elif p.exit == 'diverge':
+                        continue        # a panic (an assertion that failed) selects nothing: the panic census answers for it
                     else:
                         res.add(('<%s>' % p.exit,))
                 ops_only = {x for x in res if x != ('<fallback>',) and not (len(x) == 1 and str(x[0]).startswith('<'))}
